@@ -41,7 +41,7 @@ from ..core import (AnalysisError, call_name, const_str, find_calls, is_name,
                     walk)
 from ..normalize import expand_locals
 from ..lib_C14 import (COPIER, CORE, EXPORT, FB, WRITER, Mini, Model, USet,
-                       dewalrus, inline_module_helpers,
+                       basin_loop, dewalrus, inline_module_helpers,
                        Unknown, Unordered, base_names, cfg_ids,
                        classes_in, edge_guarded, enclosing_conditions,
                        fact_guard, fold, method, single_assign, stmt_of)
@@ -247,32 +247,48 @@ def r71(ctx, repo):
     ctx.ob("R7.1", ok, "KeyError when no source delivers" if ok else
            "__getitem__ does not end in KeyError", node=stages[-1][1],
            label="ends in KeyError")
-    # type filter
-    f = repo.func(CORE, "RTDCBase._get_basin_feature_data")
-    lp = [n for n in walk(f) if isinstance(n, ast.For)
-          and isinstance(n.target, ast.Name) and "basins" in txt(n.iter)]
-    if len(lp) != 1:
-        raise AnalysisError("_get_basin_feature_data: loop lost")
-    bn = lp[0].target.id
-    skip = [n for n in lp[0].body if isinstance(n, ast.If) and any(
-        isinstance(x, ast.Continue) for x in n.body)
-        and "basin_type" in expand_locals(f, n.test)]
-    if len(skip) != 1:
-        raise AnalysisError("_get_basin_feature_data: type filter lost")
+    # type filter: which basins are considered for a requested type –
+    # leading `if ...: continue` statements of the loop and / or the
+    # conditions of a filtering comprehension the loop iterates
+    f = dewalrus(repo.func(CORE, "RTDCBase._get_basin_feature_data"))
+    lp, bn, _base, keeps = basin_loop(f, "_get_basin_feature_data")
+    skips = []
+    for st in lp.body:
+        if isinstance(st, ast.If) and not st.orelse and len(
+                st.body) >= 1 and isinstance(st.body[-1], ast.Continue) \
+                and not any(isinstance(x, (ast.Assign, ast.Return))
+                            for x in walk(st)):
+            skips.append(st)
+        elif isinstance(st, (ast.Assign, ast.Expr)) and not isinstance(
+                getattr(st, "value", None), ast.Call):
+            continue
+        elif isinstance(st, ast.Assign) and "basin" not in txt(st.value):
+            continue
+        else:
+            break
+    tests = [(ast.parse(expand_locals(f, t), mode="eval").body, v, True)
+             for t, v in keeps]
+    tests += [(ast.parse(expand_locals(f, st.test), mode="eval").body, bn,
+               False) for st in skips]
+    tests = [t for t in tests if "basin_type" in txt(t[0])]
     bad = []
-    # single-assignment locals (type_requested = basin_type is not None)
-    test = ast.parse(expand_locals(f, skip[0].test), mode="eval").body
     for want in (None, "internal", "file", "remote"):
         for have in ("internal", "file", "remote"):
-            got = bool(fold(test, {"basin_type": want,
-                                   f"{bn}.basin_type": have},
-                            "basin type filter"))
-            if got != (want is not None and want != have):
-                bad.append((want, have, got))
-    ctx.ob("R7.1", not bad, "the type filter skips exactly the basins of "
-           "another type (12 cases)" if not bad else
-           f"type filter wrong for (requested, basin) = {bad[0][:2]}",
-           node=skip[0], label="basin type filter")
+            considered = True
+            for t, v, keep in tests:
+                val = bool(fold(t, {"basin_type": want,
+                                    f"{v}.basin_type": have},
+                                "basin type filter"))
+                if val != keep:
+                    considered = False
+            if considered != (want is None or want == have):
+                bad.append((want, have, considered))
+    ctx.ob("R7.1", not bad, "the type filter considers exactly the basins of "
+           "the requested type (12 cases)" if not bad else
+           f"requested type {bad[0][0]!r}: a {bad[0][1]} basin is "
+           f"{'considered' if bad[0][2] else 'skipped'} "
+           f"({len(bad)} of 12 cases wrong)",
+           node=(skips or [lp])[0], label="basin type filter")
 
 
 def _priority_sort_orders_types(repo):
@@ -1162,19 +1178,28 @@ def r74(ctx, repo):
 
 # ----------------------------------------------------------------------
 def r75(ctx, repo):
-    br = repo.func(CORE, "RTDCBase.basins_retrieve")
+    br = inline_module_helpers(
+        repo, CORE, repo.func(CORE, "RTDCBase.basins_retrieve"),
+        methods=True)
     ppath = {n.targets[0].id for n in walk(br) if isinstance(n, ast.Assign)
              and isinstance(n.targets[0], ast.Name) and isinstance(
                  n.value, ast.Call) and call_name(n.value) in (
                  "pathlib.Path", "Path") and n.value.args
              and is_self_attr(n.value.args[0], "path")}
-    rel = [c for c in walk(br) if isinstance(c, ast.Call) and c.args
-           and isinstance(c.args[0], ast.BinOp) and isinstance(
-               c.args[0].op, ast.Div) and isinstance(
-               c.args[0].left, ast.Attribute)
-           and c.args[0].left.attr == "parent"
-           and (txt(c.args[0].left.value) in ppath or "self.path" in txt(
-               c.args[0].left.value)) and "**" in txt(c)]
+    inst = [c for c in walk(br) if isinstance(c, ast.Call) and c.args
+            and any(k.arg is None for k in c.keywords)
+            and isinstance(c.func, ast.Name)]
+    if not inst:
+        raise AnalysisError("basins_retrieve: basin instantiations not found")
+    rel = []
+    for c in inst:
+        a0 = ast.parse(expand_locals(br, c.args[0]), mode="eval").body
+        if isinstance(a0, ast.BinOp) and isinstance(a0.op, ast.Div) \
+                and isinstance(a0.left, ast.Attribute) \
+                and a0.left.attr == "parent" and (
+                    txt(a0.left.value) in ppath
+                    or "self.path" in txt(a0.left.value)):
+            rel.append(c)
     ctx.ob("R7.5", bool(rel),
            "file basins are also looked up relative to the directory of the "
            "referrer" if rel else "file basins are no longer looked up "
